@@ -23,6 +23,9 @@ func main() {
 	switch os.Args[1] {
 	case "worker":
 		fw.WorkerMain()
+	case "probe":
+		// vcheck probe '<sql>' '<json array of rows>' [eager]
+		fmt.Println(checks.Probe(os.Args[2], os.Args[3], len(os.Args) > 4))
 	case "list":
 		for _, id := range fw.IDs() {
 			fmt.Println(id)
